@@ -18,11 +18,20 @@ def enumerate_cases(tier, rng):
             for pess in (False, True):
                 if pess and any(o["op"] == "insdel" for o in sh["ops"]) and mode == "1pc":
                     pass
-                base.append((sh, mode, pess))
+                if unistore_ok(sh, mode, pess):
+                    base.append((sh, mode, pess))
     if tier == "quick":
         rng.shuffle(base)
-        base = base[:60]
+        base = base[:110]
     return base
+
+
+def unistore_ok(sh, mode, pess):
+    """unistore records the commit of a lock-only (Op_Lock) key only when it is the primary, so its CheckSecondaryLocks
+    reports a committed lock-only secondary as missing; async-commit shapes with lock-only mutations are therefore left to
+    the 2PC/1PC modes (environment limitation, see docs/TXN.md)"""
+    muts = txnlab.expected_mutations({'ops': sh['ops'], 'pessimistic': pess})
+    return not (mode == 'async' and 'lock' in muts.values())
 
 
 def main(tier, replay):
@@ -60,9 +69,9 @@ def main(tier, replay):
                     extras = [{"at": i, "what": rng.choice(["reader", "writer", "gc", "split"]), "k": ""}]
                 cases.append(txnlab.mk_scenario(f"{sh['name']}-{mode}-{'p' if pess else 'o'}-{i}-{kind[6:7]}{'x' if extras else ''}", sh, mode, pess,
                                                 faults=[{"at": i, "kind": kind}], extras=extras))
-    if tier == "quick" and len(cases) > 900:
+    if tier == "quick" and len(cases) > 1800:
         rng.shuffle(cases)
-        cases = cases[:900]
+        cases = cases[:1800]
     res = txnlab.run_scenarios(exe, probes + cases)
     allsc = probes + cases
     nviol, distinct, samples, dist = 0, set(), [], {}
